@@ -299,4 +299,161 @@ theorem endLoop_cf (b : Bool) (st : St) (c : Cf) (h : c.ok st) :
     · obtain ⟨⟨h0, h1, r, h2⟩, h3⟩ := h
       simp only [Cf.prods, Cf.qs, QS.accepting, K.ex, K.below]; elvl; elvl; elvl; elvl
 
+/-! ## the derived automaton follows the same table -/
+
+/-- assumption A1 of the check: a token whose value is one of `( ) : ,` has type CHAR -/
+def Dom (t : Tok) : Prop := (t.val = cOpen ∨ t.val = cClose ∨ t.val = cColon ∨ t.val = cComma) → t.typ = .char
+
+def itemOf (m : Matcher) (t : Tok) : QItem :=
+  match m with
+  | .color => .value .color t
+  | .dimension => .value .dimension t
+  | .value => .value .value t
+  | _ => .tok t
+
+def applyQ (q : QSt) (m : Matcher) (f : PFlags) (t : Tok) (c' : Cf) : QSt :=
+  { s := c'.qs, items := itemOf m t :: q.items, stopIf := f.stopIf || q.stopIf,
+    mtype := if f.store = 1 then some t.val else q.mtype,
+    notSimple := (m == .onlyNot || m == .and_) || q.notSimple }
+
+syntax "dsimp_all" : tactic
+macro_rules
+  | `(tactic| dsimp_all) => `(tactic|
+    simp_all [stepQ, stepCf, Matcher.test, charIs, valueKind, applyQ, itemOf, QSt.emit, Cf.qs, cOpen, cClose, cColon,
+      cComma, K.next])
+
+theorem stepQ_cf (b : Bool) (c : Cf) (q : QSt) (t : Tok) (hc : q.s = c.qs) (hd : Dom t) :
+    stepQ b q t = match stepCf b c (fun m => m.test t) with
+      | .hit m f c' => if m = .color ∧ t.typ = .function then .unsupported else .cont (applyQ q m f t c')
+      | .noMatch => .noMatch
+      | .missing => .missing := by
+  unfold Dom at hd
+  cases c with
+  | start =>
+    simp only [Cf.qs] at hc
+    by_cases h1 : t.typ = .ident <;> by_cases h2 : isPrefixWord t.val = true <;>
+      by_cases h3 : isMediaType t.val = true <;> by_cases h4 : t.val = [40] <;> dsimp_all
+  | pre =>
+    simp only [Cf.qs] at hc
+    by_cases h1 : t.typ = .ident <;> by_cases h3 : isMediaType t.val = true <;> dsimp_all
+  | type =>
+    simp only [Cf.qs] at hc
+    by_cases h1 : t.typ = .ident <;> by_cases h3 : isAndWord t.val = true <;> dsimp_all
+  | and_ k =>
+    simp only [Cf.qs] at hc
+    by_cases h4 : t.val = [40] <;> dsimp_all
+  | open_ k =>
+    simp only [Cf.qs] at hc
+    by_cases h1 : t.typ = .ident <;> dsimp_all
+  | feat k =>
+    simp only [Cf.qs] at hc
+    by_cases h4 : t.val = [58] <;> by_cases h5 : t.val = [41] <;> dsimp_all
+  | colon k =>
+    simp only [Cf.qs] at hc
+    by_cases h4 : isHexColor t.val = true <;> by_cases h5 : colorFunctions.contains (normalize t.val) = true <;>
+      cases ht : t.typ <;> dsimp_all
+  | val k =>
+    simp only [Cf.qs] at hc
+    by_cases h5 : t.val = [41] <;> dsimp_all
+  | close k =>
+    simp only [Cf.qs] at hc
+    cases k <;> by_cases h1 : t.typ = .ident <;> by_cases h3 : isAndWord t.val = true <;> dsimp_all
+
+/-! ## one iteration of `mainLoop` -/
+
+/-- the loop state after a production matched (`prodparser.py:596-612`) -/
+def hitLoop {α : Type} (l : Loop α) (t : Tok) (f : PFlags) (prods : List Node) (st : St) : Loop α :=
+  let l := { l with prods := prods, st := st, stopIf := f.stopIf || l.stopIf, lastMayEnd := some f.mayEnd }
+  if f.store == 1 then { l with mediaType := some t }
+  else if f.store == 2 then { l with notSimple := true } else l
+
+section shapes
+variable {α : Type} (act : Act α) (fuel : Nat) (l : Loop α) (t : Tok) (ts p : List Tok) (ft : Bool)
+
+/-- the four ways a token reaches the loop: head of the stream, put in front (`pushtoken`), popped from
+`savedTokens`, re-emitted by the tokenizer after `push` -/
+theorem shape_cons (hp : ft = true → p = []) :
+    mainLoop act (fuel + 1) none ⟨t :: ts, ft, p, []⟩ l = mainLoop act (fuel + 1) (some t) ⟨ts, ft, p, []⟩ l := by
+  rw [mainLoop.eq_def, mainLoop.eq_def]
+  cases ft with
+  | false => simp [Src.next]
+  | true => simp [Src.next, hp rfl]
+
+theorem shape_saved :
+    mainLoop act (fuel + 1) none ⟨ts, ft, p, [t]⟩ l = mainLoop act (fuel + 1) (some t) ⟨ts, ft, p, []⟩ l := by
+  rw [mainLoop.eq_def, mainLoop.eq_def]
+
+theorem shape_pushed (t2 : Tok) :
+    mainLoop act (fuel + 1) none ⟨t2 :: ts, true, [t], []⟩ l
+      = mainLoop act (fuel + 1) (some t) ⟨t2 :: ts, true, [], []⟩ l := by
+  rw [mainLoop.eq_def, mainLoop.eq_def]
+  simp [Src.next]
+
+theorem first_comment (h : t.typ = .comment) :
+    mainLoop act (fuel + 1) (some t) ⟨ts, ft, p, []⟩ l
+      = mainLoop act fuel none ⟨ts, ft, p, []⟩ { l with seq := act.comment t :: l.seq } := by
+  rw [mainLoop.eq_def]; simp [h]
+
+theorem first_s (h : t.typ = .s) :
+    mainLoop act (fuel + 1) (some t) ⟨ts, ft, p, []⟩ l = mainLoop act fuel none ⟨ts, ft, p, []⟩ l := by
+  rw [mainLoop.eq_def]; simp [h]
+
+theorem first_invalid (h : t.typ = .invalid) :
+    mainLoop act (fuel + 1) (some t) ⟨ts, ft, p, []⟩ l = .ok ({ l with wellformed := false }, ⟨ts, ft, p, []⟩) := by
+  rw [mainLoop.eq_def]; simp [h]
+
+theorem first_eof (h : t.typ = .eof) :
+    mainLoop act (fuel + 1) (some t) ⟨ts, ft, p, []⟩ l = .unsupported := by
+  rw [mainLoop.eq_def]; simp [h]
+
+theorem first_hit (hs : t.typ.special = false) (m : Matcher) (f : PFlags) (prods : List Node) (st : St)
+    (hd : descend t 64 l.prods l.st = (.ok (m, f), prods, st))
+    (h1 : f.nextSor = false) (h2 : f.stopAndKeep = false) (h3 : f.stop = false) :
+    mainLoop act (fuel + 1) (some t) ⟨ts, ft, p, []⟩ l =
+      (if f.toSeq then
+         match act.prod m t ⟨ts, ft, p, []⟩ fuel with
+         | .ok (item, src'') => mainLoop act fuel none src'' { hitLoop l t f prods st with seq := item :: l.seq }
+         | .bad => .bad
+         | .unsupported => .unsupported
+       else mainLoop act fuel none ⟨ts, ft, p, []⟩ (hitLoop l t f prods st)) := by
+  rw [mainLoop.eq_def]
+  by_cases hs1 : f.store = 1 <;> by_cases hs2 : f.store = 2 <;> cases hts : f.toSeq <;>
+    cases ht : t.typ <;> simp [ht, TT.special] at hs <;> simp [ht, hd, h1, h2, h3, hitLoop, hs1, hs2, hts] <;>
+    (try (rcases act.prod m t { toks := ts, fromText := ft, pushed := p } fuel with ⟨⟨_, _⟩⟩ | _ | _ <;> rfl))
+
+
+theorem first_noMatch (hs : t.typ.special = false) (hd : (descend t 64 l.prods l.st).1 = .error .noMatch) :
+    mainLoop act (fuel + 1) (some t) ⟨ts, ft, p, []⟩ l =
+      if l.stopIf then
+        .ok ({ l with prods := (descend t 64 l.prods l.st).2.1, st := (descend t 64 l.prods l.st).2.2, stopall := true },
+             ⟨ts, ft, p, [t]⟩)
+      else .ok ({ l with prods := (descend t 64 l.prods l.st).2.1, st := (descend t 64 l.prods l.st).2.2,
+                         wellformed := false }, ⟨ts, ft, p, []⟩) := by
+  rw [mainLoop.eq_def]
+  rcases hdd : descend t 64 l.prods l.st with ⟨r, prods, st⟩
+  rw [hdd] at hd
+  simp only at hd
+  subst hd
+  cases ht : t.typ <;> simp [ht, TT.special] at hs <;> simp [ht, hdd]
+
+theorem first_missing (hs : t.typ.special = false) (hd : (descend t 64 l.prods l.st).1 = .error .missing) :
+    mainLoop act (fuel + 1) (some t) ⟨ts, ft, p, []⟩ l =
+      if l.stopIf then
+        .ok ({ l with prods := (descend t 64 l.prods l.st).2.1, st := (descend t 64 l.prods l.st).2.2, stopall := true },
+             ⟨ts, ft, t :: p, []⟩)
+      else .ok ({ l with prods := (descend t 64 l.prods l.st).2.1, st := (descend t 64 l.prods l.st).2.2,
+                         wellformed := false }, ⟨ts, ft, p, []⟩) := by
+  rw [mainLoop.eq_def]
+  rcases hdd : descend t 64 l.prods l.st with ⟨r, prods, st⟩
+  rw [hdd] at hd
+  simp only at hd
+  subst hd
+  cases ht : t.typ <;> simp [ht, TT.special] at hs <;> simp [ht, hdd]
+
+theorem mainLoop_nil :
+    mainLoop act (fuel + 1) none ⟨[], ft, p, []⟩ l = .ok (l, ⟨[], ft, p, []⟩) := by
+  rw [mainLoop.eq_def]; simp [Src.next]
+
+end shapes
+
 end CssVerif.MediaSim
